@@ -29,3 +29,19 @@ def bump_global(_x):
     global _COUNTER
     _COUNTER += 1
     return _COUNTER >= 1
+
+
+_SHARED = None
+
+
+def set_shared(value, more=0):
+    global _SHARED
+    _SHARED = value + more
+
+
+def read_shared(_x):
+    return _SHARED
+
+
+def bad_init():
+    raise RuntimeError("initializer failed")
